@@ -57,7 +57,7 @@ def _file_and_text(text):
 def judge(V, behs, res, seed, what):
     ndrift = nbad = 0
     for b, (text, out, subs) in zip(behs, res):
-        tags = F.spec_tags(b)
+        tags = F.spec_tags(b, seed)
         if F.drift(b, subs, seed) and not tags:
             ndrift += 1
         paths = []
@@ -122,7 +122,7 @@ def run(tier, seed):
         total += len(behs)
         tags = {}
         for b in behs:
-            for tg in F.spec_tags(b):
+            for tg in F.spec_tags(b, seed):
                 tags[tg] = tags.get(tg, 0) + 1
         cov["generation"].append({"config": what, "behaviours": len(g.beh), "replayed": len(behs), "mismatches": nb, "spec_dev_tags": tags})
         if sample is None:
@@ -138,7 +138,7 @@ def run(tier, seed):
         total += len(ub)
         cov["generation"].append({"config": "simulation (<=4 statements, <=3 comments)", "replayed": len(ub), "mismatches": nb})
     # ---- the file entry point reads the same comments the same way -------------------------------------------------------------
-    fb = [b for cfgb in [locals().get("behs", [])] for b in cfgb if not F.spec_tags(b)]
+    fb = [b for cfgb in [locals().get("behs", [])] for b in cfgb if not F.spec_tags(b, seed)]
     fb = rnd.sample(fb, min(len(fb), 1500 if thorough else 300))
     ftexts = [(A.render(b, b["stmts"], seed), [(e["name"], e["cols"]) for e in A.expected_entities(b, b["stmts"]) if e["kind"] == "table"], True) for b in fb]
     ftexts += [(t, exp, False) for t, exp in SPECIAL]
